@@ -72,19 +72,21 @@ RecvNext(s, x) ==
             IF r.k = "end" THEN {r.s}
             ELSE IF x.seqrel = "lo" THEN {ForcedLogoff(s)}                                        \* NewSeqNo below the expected number
             ELSE IF s = StResendSent THEN {StCont} ELSE {s}
+      \* the handlers call enforce() and ignore what it returns: after a too-high number (ResendRequest sent, or the gap
+      \* ignored) they go on from the state enforce() left
       [] x.kind = "2" ->
             LET r == Enforce(s, x, TRUE) IN
-            IF r.k # "ok" /\ r.k # "dup" THEN {r.s}
-            ELSE IF s = StResendRecv \/ x.extra = "badrange" \/ ~x.persist THEN {s}
+            IF r.k = "end" THEN {r.s}
+            ELSE IF r.s = StResendRecv \/ x.extra = "badrange" \/ ~x.persist THEN {r.s}
             ELSE {StCont}        \* resend_request_received for the duration of the replay; both persisters end every
-                                 \* range retrieval with the "no more records" call, which sets continuous
+                                 \* range retrieval with the "no more records" call, which sets continuous - also when
+                                 \* enforce() had just moved to resend_request_sent (that state is lost)
       [] x.kind = "0" ->
             LET r == Enforce(s, x, TRUE) IN
-            IF r.k # "ok" /\ r.k # "dup" THEN {r.s}
-            ELSE IF s = StTestReqSent THEN {StCont} ELSE {s}
+            IF r.k = "end" THEN {r.s}
+            ELSE IF r.s = StTestReqSent THEN {StCont} ELSE {r.s}
       [] OTHER ->                                         \* "1" "3" "5" and application messages
-            LET r == Enforce(s, x, TRUE) IN
-            IF r.k # "ok" /\ r.k # "dup" THEN {r.s} ELSE {s}
+            LET r == Enforce(s, x, TRUE) IN {r.s}
 
 Next(s, x) ==
     IF x.op = "Restart" THEN {StNone}                   \* a new session object
